@@ -1156,6 +1156,7 @@ impl<E: Elem> Engine<E> {
             return Ok(());
         }
 
+        let mut was_rejected = false;
         match (&verdict, &outcome) {
             (Verdict::Accept, Ok(_)) => {
                 if let Some((variant, idx, m, desc, lawless, _)) = unstable_sort {
@@ -1190,12 +1191,16 @@ impl<E: Elem> Engine<E> {
             }
             (Verdict::Reject, Err(Caught::Panic(_))) => {
                 self.stats.rejected += 1;
+                was_rejected = true;
             }
             (Verdict::Either, _) => {}
             (_, Err(Caught::Fault(_))) => unreachable!("fault fired but not marked"),
             (Verdict::Skip, _) => unreachable!(),
         }
         if let Err((k, d)) = self.audit_guarded(&Mode::Strict) {
+            // a rejected call that panicked but changed the (still valid) contents differs from the
+            // model (C01) without contradicting "panics and leaves a valid array" (C06 / C07)
+            let k = if was_rejected && k == "cells" { "cells_after_reject" } else { k };
             return Err(self.viol(k, d, step, None));
         }
         self.note_state(step, &None);
